@@ -22,6 +22,8 @@ type LexCase struct {
 	Ops   []string `json:"ops,omitempty"` // registered operator spellings; nil = the built-in table
 	// operator sets with which the same input was lexed earlier in this process (result not looked at)
 	Prev [][]string `json:"prev,omitempty"`
+	// other inputs lexed earlier by the very same lexer object (accepted or refused, result not looked at)
+	Before []string `json:"before,omitempty"`
 }
 
 var builtinOpNames = func() []string {
@@ -52,9 +54,13 @@ type yaeTok struct {
 	Idx, IdxEnd, Line, Col int
 }
 
-func yaeLex(input string, names []string) (toks []yaeTok, p *run.Panic) {
+func yaeLex(input string, names []string, before ...string) (toks []yaeTok, p *run.Panic) {
+	lx := lexer.NewLexer(opsFor(names))
+	for _, b := range before {
+		_ = run.Guard(func() { lx.Lex(b) })
+	}
 	p = run.Guard(func() {
-		for _, t := range lexer.NewLexer(opsFor(names)).Lex(input) {
+		for _, t := range lx.Lex(input) {
 			toks = append(toks, yaeTok{string(t.Kind), t.Lexeme, t.Idx, t.IdxEnd, t.Line, t.Col})
 		}
 	})
@@ -70,9 +76,12 @@ func checkLex(c *LexCase) *Outcome {
 	for _, prev := range c.Prev {
 		_, _ = yaeLex(c.Input, prev)
 	}
-	got, p := yaeLex(c.Input, c.Ops)
+	got, p := yaeLex(c.Input, c.Ops, c.Before...)
 	runes := []rune(c.Input)
 	desc := fmt.Sprintf("input %q ops %v", c.Input, c.Ops)
+	if len(c.Before) > 0 {
+		desc += fmt.Sprintf(" the same lexer object lexed %q before", c.Before)
+	}
 	if p != nil {
 		if p.Runtime {
 			return bad("lexer failed with a runtime error instead of a syntax error: %s (%s)", p.Text, desc)
@@ -143,6 +152,9 @@ func checkLex(c *LexCase) *Outcome {
 	classes := []string{}
 	if len(c.Prev) > 0 {
 		classes = append(classes, "after-sibling-operator-set")
+	}
+	if len(c.Before) > 0 {
+		classes = append(classes, "lexer-object-reused")
 	}
 	multi, nl := false, strings.Contains(c.Input, "\n")
 	kinds := map[string]bool{}
@@ -271,6 +283,18 @@ func genLexCase(t *rapid.T) *LexCase {
 		}
 		if sib := siblingOps(t, names); len(sib) > 0 {
 			c.Prev = append(c.Prev, sib)
+		}
+	}
+	if nb := rapid.IntRange(0, 5).Draw(t, "before"); nb >= 4 {
+		for i := 0; i < nb-3; i++ {
+			b := genLexCase0(t).Input
+			switch rapid.IntRange(0, 3).Draw(t, "beforekind") {
+			case 0:
+				b += " $" // refused after some accepted tokens, possibly on a later line
+			case 1:
+				b += "\n\n \"unterminated"
+			}
+			c.Before = append(c.Before, b)
 		}
 	}
 	return c
